@@ -41,7 +41,8 @@ def build_group(repo, group, canary=False):
     """returns (text, parts[(first_line, last_line, kind, name)], log)"""
     log = []
     chunks = ["#![allow(unused)]\n" + "".join(f"#![feature({f})]\n" for f in group.get("features", []))
-              + "use vstd::prelude::*;\n" + group.get("uses", "") + "\nverus! {\n"]
+              + "use vstd::prelude::*;\n" + group.get("uses", "") + "\nverus! {\n"
+              + ("broadcast use {" + ", ".join(group["broadcast"]) + "};\n" if group.get("broadcast") else "")]
     names = ["<header>"]
     kinds = ["text"]
     for kind, val in group["parts"]:
@@ -55,7 +56,7 @@ def build_group(repo, group, canary=False):
             kinds.append("unit")
     if canary:
         for kind, val in group["parts"]:
-            if kind == "unit" and val.get("contract") and not val.get("no_canary"):
+            if kind == "unit" and val.get("contract") and not val.get("no_canary") and not val.get("opaque") and X.can_canary(repo, val):
                 chunks.append(X.extract_unit(repo, val, log, canary=True))
                 names.append(val["name"] + "__canary")
                 kinds.append("canary")
@@ -143,7 +144,10 @@ def analyse(text, parts, res):
         msg = d.get("message", "")
         if msg.startswith("aborting due to"):
             continue
-        spans = d.get("spans", [])
+        allspans = d.get("spans", [])
+        base = os.path.basename(res["cmd"].split()[1]) if res.get("cmd") else ""
+        spans = [s for s in allspans if os.path.basename(s.get("file_name", "")) == base] or allspans
+        foreign = [s for s in allspans if s not in spans]
         prim = [s for s in spans if s.get("is_primary")] or spans
         pline = prim[0]["line_start"] if prim else 0
         kd, nm = part_of(parts, pline)
@@ -159,6 +163,8 @@ def analyse(text, parts, res):
                         labels += LABEL_RE.findall(lines[ln - 1])
         span_txt = [{"line": s["line_start"], "label": s.get("label"),
                      "text": (s.get("text") or [{}])[0].get("text", "").strip()} for s in spans]
+        if foreign:
+            msg = msg + " [" + "; ".join(f'{os.path.basename(s.get("file_name",""))}:{s["line_start"]}' for s in foreign[:2]) + "]"
         rec = {"message": msg, "part": nm, "kind": kd, "line": pline, "labels": sorted(set(labels)),
                "spans": span_txt, "rendered": d.get("rendered", "")[:3000]}
         if any(k in msg for k in INCONCLUSIVE_MSGS):
